@@ -90,6 +90,46 @@ def conjuncts(e):
     return [e]
 
 
+class _Norm:
+    """a function seen through a normalised copy of its syntax tree: module-level string constants are their literals, and a
+    tuple assignment from a display of the same length is the sequence of its single assignments (``a, b = (x, y)``)"""
+
+    def __init__(self, f):
+        import copy
+        from sa.guards import module_str_consts
+        self._f = f
+        consts = module_str_consts(f)
+
+        class T(ast.NodeTransformer):
+            def visit_Name(self, node):
+                if isinstance(node.ctx, ast.Load) and node.id in consts:
+                    return ast.copy_location(ast.Constant(value=consts[node.id]), node)
+                return node
+
+            def generic_visit(self, node):
+                node = ast.NodeTransformer.generic_visit(self, node)
+                for fld in ("body", "orelse", "finalbody"):
+                    blk = getattr(node, fld, None)
+                    if isinstance(blk, list) and blk and isinstance(blk[0], ast.stmt):
+                        new = []
+                        for st in blk:
+                            if isinstance(st, ast.Assign) and len(st.targets) == 1 and isinstance(st.targets[0], (ast.Tuple, ast.List)) \
+                                    and isinstance(st.value, (ast.Tuple, ast.List)) and len(st.targets[0].elts) == len(st.value.elts) \
+                                    and all(isinstance(t, ast.Name) for t in st.targets[0].elts) \
+                                    and not ({t.id for t in st.targets[0].elts} & {n.id for v in st.value.elts for n in ast.walk(v) if isinstance(n, ast.Name)}):
+                                for t, v in zip(st.targets[0].elts, st.value.elts):
+                                    new.append(ast.copy_location(ast.Assign(targets=[t], value=v), st))
+                            else:
+                                new.append(st)
+                        setattr(node, fld, new)
+                return node
+        self.node = T().visit(copy.deepcopy(f.node))
+        ast.fix_missing_locations(self.node)
+
+    def __getattr__(self, name):
+        return getattr(self._f, name)
+
+
 def key_language(ctx, setter):
     """automaton of the dictionary keys that pass the setter's validation"""
     E = symlang.elements(ctx)
@@ -109,7 +149,8 @@ def key_language(ctx, setter):
                     loops = val_loops(g)
     if len(loops) != 1:
         raise AnalysisError("key validation loop of the setter not found")
-    lp = loops[0]
+    setter = _Norm(setter)
+    lp = val_loops(setter)[0]
     tgt = lp.target.elts[0] if isinstance(lp.target, ast.Tuple) else lp.target
     if not isinstance(tgt, ast.Name):
         raise AnalysisError("key variable of the validation loop not found")
@@ -133,6 +174,7 @@ def key_language(ctx, setter):
                 g = r[1] if r and r[0] == "func" else None
                 if g is not None and len(c.args) == 1 and isinstance(c.args[0], ast.Name) and c.args[0].id == key \
                         and len(g.posparams) == 1 and not c.keywords:
+                    g = _Norm(g)
                     helper_clauses = _helper_clauses(g)
                     key = g.posparams[0]
                     scope = [st for st in g.node.body if not (isinstance(st, ast.Expr) and isinstance(st.value, ast.Constant))]
@@ -285,6 +327,30 @@ def _fold_set(ctx, f, node):
     raise AnalysisError("membership set %s does not fold" % unparse(node))
 
 
+def _const_dict_local(f, name):
+    """the literal dict a local is bound to -- once, to a display of constants -- when nothing in f can change it"""
+    if f is None or name not in f.locals or name in f.params:
+        return None
+    binds = [n for n in own_nodes(f.node) if isinstance(n, ast.Name) and n.id == name and isinstance(n.ctx, (ast.Store, ast.Del))]
+    asg = [n for n in own_nodes(f.node) if isinstance(n, ast.Assign) and len(n.targets) == 1 and isinstance(n.targets[0], ast.Name)
+           and n.targets[0].id == name and isinstance(n.value, ast.Dict)]
+    if len(binds) != 1 or len(asg) != 1:
+        return None
+    for n in own_nodes(f.node):
+        if isinstance(n, ast.Name) and n.id == name and isinstance(n.ctx, ast.Load):
+            par = next((x for x in own_nodes(f.node) if any(c is n for c in ast.iter_child_nodes(x))), None)
+            ok = isinstance(par, ast.Attribute) and par.attr in ("items", "keys", "values", "get") \
+                or isinstance(par, (ast.For, ast.comprehension, ast.Compare)) \
+                or (isinstance(par, ast.Subscript) and isinstance(par.ctx, ast.Load))
+            if not ok:
+                return None
+    try:
+        v = ast.literal_eval(asg[0].value)
+    except Exception:
+        return None
+    return v if isinstance(v, dict) else None
+
+
 class BuilderHooks(Hooks):
     def __init__(self):
         self.adds = []
@@ -305,6 +371,12 @@ class BuilderHooks(Hooks):
             self.loop = dict(node=node, syms=syms, entered=entered, back=back, exits=exits, breaks=breaks)
 
     def on_call(self, eng, fr, node, callee, args, kwargs, st):
+        if isinstance(callee, tuple) and callee[0] == "method" and callee[1] == "items" and not args and fr.depth == 0 \
+                and isinstance(node, ast.Call) and isinstance(node.func, ast.Attribute) and isinstance(node.func.value, ast.Name):
+            # items() of a local bound once to a literal dict of constants that the function never changes: its pairs
+            lit = _const_dict_local(fr.func, node.func.value.id)
+            if lit is not None:
+                return [(st, Tup([Tup([eng.wrap(k), eng.wrap(v)]) for k, v in lit.items()], "list"))]
         if isinstance(callee, tuple) and callee[0] == "method" and callee[1] in ("add", "update", "append", "extend") and fr.depth == 0:
             self.adds.append((node, callee[1], args, st))
             s2 = self.tag(st, ("add", node, args[0] if args else None))
@@ -350,6 +422,26 @@ def run(ctx, rep):
                 v = ctx.fold.global_value(getter.module.name, nm)
                 if isinstance(v, dict) and not written:
                     bonds = dict(v)
+    if not isinstance(bonds, dict):
+        # a module-level constant sequence of (prefix, order) pairs handed to product() next to the table's items
+        for n in own_nodes(getter.node):
+            if isinstance(n, ast.Call) and unparse(n.func).split(".")[-1] == "product":
+                for a in n.args:
+                    if isinstance(a, ast.Name) and a.id not in getter.locals and a.id in getter.module.assigned \
+                            and len(getter.module.assigned[a.id]) == 1 and (getter.module.name, a.id) not in table_vars:
+                        try:
+                            v = ctx.fold.global_value(getter.module.name, a.id)
+                        except Exception:
+                            continue
+                        if isinstance(v, tuple) and v and all(isinstance(x, tuple) and len(x) == 2 and isinstance(x[0], str) for x in v):
+                            bonds = dict(v)
+                    elif isinstance(a, (ast.Tuple, ast.List)):
+                        try:
+                            v = ast.literal_eval(a)
+                            if v and all(isinstance(x, (tuple, list)) and len(x) == 2 and isinstance(x[0], str) for x in v):
+                                bonds = dict(v)
+                        except Exception:
+                            pass
     if not isinstance(bonds, dict):
         raise AnalysisError("bond-prefix table of the alphabet builder not found")
     ok = bonds == {k: v for k, v in SPEC.BOND_ORDER.items()}
@@ -407,29 +499,43 @@ def run(ctx, rep):
     agg = {}
     for st in lp["back"] + lp["breaks"]:
         adds = [t for t in st.tags if t[0] == "add"]
-        # identify m, c: the numeric comparison terms; a: compared with "?"
         env = st.env
         info = _roles(node, env)
-        if info is None:
-            raise AnalysisError("cannot identify key / capacity / prefix / order variables of the builder loop")
-        a, c, b, m = info
-        lm, lc = Lin.var(m.term), Lin.var(c.term)
+        if info is not None:
+            # one loop over product(table.items(), prefixes.items()): a symbolic (prefix, order) pair per iteration
+            a, c, b, m = info
+            pairs = [((("sym", b.term),), Lin.var(m.term), "this prefix")]
+        else:
+            # a loop over the table's items with the (literal) prefix table walked inside it: every concrete pair
+            t_ = node.target
+            if not (isinstance(t_, ast.Tuple) and len(t_.elts) == 2 and all(isinstance(x, ast.Name) for x in t_.elts)):
+                raise AnalysisError("cannot identify key / capacity / prefix / order variables of the builder loop")
+            a, c = env.get(t_.elts[0].id), env.get(t_.elts[1].id)
+            if not (isinstance(a, Unk) and isinstance(c, Unk)):
+                raise AnalysisError("cannot identify key / capacity variables of the builder loop")
+            pairs = [((("lit", p_),) if p_ else (), Lin.const(m_), "prefix %r" % p_) for p_, m_ in sorted(bonds.items(), key=lambda kv: kv[1])]
+        lc = Lin.var(c.term)
         qk = ("eq", tuple(sorted([repr(vkey(a)), repr(vkey(Con("?")))])))
         isq = st.atoms.get(qk)
-        probs = []
-        if adds:
-            if not st.entails(le(lm, lc)):
-                probs.append("a symbol is added although order <= capacity is not entailed")
-            if isq is not False:
-                probs.append("a symbol may be added for the '?' key")
-            v = adds[0][2]
-            if not (isinstance(v, Str) and len(v.parts) == 4 and v.parts[1] == ("sym", b.term) and v.parts[2] == ("sym", a.term)):
-                probs.append("added symbol is not '[' + this prefix + this key + ']'")
-            agg.setdefault(("include", tuple(probs)), adds[0][1])
-        else:
-            if not (isq is True or st.entails(gt(lm, lc))):
-                probs.append("a (key, prefix) pair is skipped although order > capacity or key == '?' is not entailed")
-            agg.setdefault(("skip", tuple(probs)), node)
+        matched = set()
+        for pre, lm, what in pairs:
+            want = Engine._mk_str((("lit", "["),) + pre + (("sym", a.term), ("lit", "]")))
+            hit = [t for t in adds if isinstance(t[2], Str) and isinstance(want, Str) and t[2].parts == want.parts]
+            matched |= {id(t) for t in hit}
+            probs = []
+            if hit:
+                if not st.entails(le(lm, lc)):
+                    probs.append("a symbol is added although order <= capacity is not entailed")
+                if isq is not False:
+                    probs.append("a symbol may be added for the '?' key")
+                agg.setdefault(("include", tuple(probs)), hit[0][1])
+            else:
+                if not (isq is True or st.entails(gt(lm, lc))):
+                    probs.append("a (key, prefix) pair is skipped although order > capacity or key == '?' is not entailed (%s)" % what)
+                agg.setdefault(("skip", tuple(probs)), node)
+        stray = [t for t in adds if id(t) not in matched]
+        if stray:
+            agg.setdefault(("include", ("added symbol is not '[' + this prefix + this key + ']'",)), stray[0][1])
     for (kind, probs), where in agg.items():
         rep.ob("A3", not probs, where, getter, construct="%s path of the alphabet filter" % kind,
                how="included iff order <= capacity and key != '?'", witness="; ".join(probs) or None, nontrivial=True,
@@ -438,7 +544,8 @@ def run(ctx, rep):
     if kinds != {"include", "skip"}:
         rep.ob("A3", False, node, getter, construct="alphabet filter", witness="expected an including and a skipping path, found %s" % sorted(kinds))
     # iterates the live table's items
-    it_src = unparse(node.iter)
+    from rules.shared import resolve_local
+    it_src = unparse(resolve_local(getter, node.iter))
     reads_table = any("%s.items()" % tv[1] in it_src for tv in table_vars)
     rep.ob("A3", reads_table, node, getter, construct="iterated table", how="items of the live constraint table",
            witness=None if reads_table else "alphabet is not built from the table in force", key="live-table")
